@@ -156,6 +156,30 @@ pub fn run(ctx: &mut Ctx) {
         |_, idx| {
             let mut cc = gen_ccase(seed, "C05", idx, &o, false);
             let mut rng = Rng::for_case(seed, "C05x", idx);
+            if (cc.op == 1 || cc.op == 2) && rng.chance(1, 6) {
+                // two-image alpha operation on images of different size (width only, height only, both): whatever the call
+                // answers, an Ok must have written every destination pixel and an error none
+                match rng.below(3) {
+                    0 => cc.c.dw = (cc.c.sw as i64 + *rng.pick(&[-2i64, -1, 1, 2, 5])).max(1) as u32,
+                    1 => cc.c.dh = (cc.c.sh as i64 + *rng.pick(&[-2i64, -1, 1, 2, 5])).max(1) as u32,
+                    _ => {
+                        cc.c.dw = cc.c.sw + 1;
+                        cc.c.dh = (cc.c.sh as i64 + *rng.pick(&[-1i64, 1])).max(1) as u32;
+                    }
+                }
+                cc.dp = gen_place(&mut rng, cc.c.dw, cc.c.dh, cc.dk.is_crop(), false);
+            }
+            if cc.op == 0 && rng.chance(1, 40) && cc.c.sw > 0 && cc.c.sh > 0 {
+                // a valid crop box of almost no extent: still a resize that has to fill the destination
+                let t = |rng: &mut Rng| *rng.pick(&[1e-17f64, 2.2e-16, 1e-20, 1e-100, 1e-300, 5e-324]);
+                let (w, h) = (cc.c.sw as f64, cc.c.sh as f64);
+                let (l, tp) = ((rng.unit() * w).min(pred(w)), (rng.unit() * h).min(pred(h)));
+                let cw = if rng.chance(2, 3) { t(&mut rng) } else { (w - l) * rng.unit().max(0.01) };
+                let ch = if rng.chance(2, 3) { t(&mut rng) } else { (h - tp) * rng.unit().max(0.01) };
+                if l + cw <= w && tp + ch <= h {
+                    cc.c.crop = Crop::Box([l, tp, cw, ch]);
+                }
+            }
             let extra = match idx % 8 {
                 6 => {
                     let inplace = rng.chance(1, 3);
@@ -291,10 +315,14 @@ fn exec_alpha<P: Px>(cc: &CCase, stats: &mut Stats, viols: &mut Vec<Viol>) {
     stats.nontrivial(&describe(cc));
     let what = format!("alpha op {} {:?}->{:?} {}", cc.op, cc.sk, cc.dk, cc.ext.name());
     let md = &md;
+    if !inplace && (c.dw, c.dh) != (c.sw, c.sh) {
+        stats.count("alpha_calls_with_different_sizes", 1);
+    }
+    let (dw, dh) = if inplace { (c.sw, c.sh) } else { (c.dw, c.dh) };
     two_run::<P, P>(
         &src,
         (c.sw, c.sh, cc.sp),
-        (c.sw, c.sh, cc.dp),
+        (dw, dh, cc.dp),
         if inplace { Some(&src) } else { None },
         false,
         &what,
